@@ -66,9 +66,12 @@ void ddp_replace_char_in_string(ddpstring *str, ddpchar ch, ddpint index) {
 	if (oldCharLen == newCharLen) { // no need for allocations
 		memcpy(str->str + i, newChar, newCharLen);
 		return;
-	} else if (oldCharLen > newCharLen) { // no need for allocations
+	} else if (oldCharLen > newCharLen) { // the text shrinks
 		memcpy(str->str + i, newChar, newCharLen);
 		memmove(str->str + i + newCharLen, str->str + i + oldCharLen, str->cap - i - oldCharLen);
+		size_t newStrCap = str->cap - oldCharLen + newCharLen;
+		str->str = ddp_reallocate(str->str, str->cap, newStrCap); // keep cap in sync with the length
+		str->cap = newStrCap;
 	} else {
 		size_t newStrCap = str->cap - oldCharLen + newCharLen;
 		char *newStr = DDP_ALLOCATE(char, newStrCap);
